@@ -229,6 +229,14 @@ class DataGen(object):
         if r.random() < 0.5:
             self.add(("let", ("var", "V$"), ("bin", "+", ("fn", "LEFT$", [W, n(2)]), ("fn", "RIGHT$", [W, n(1)])), False), P(self.tag(), ";", ("var", "V$")))
         if r.random() < 0.5:
+            # arguments that are bare variables (and an array element): the functions read them, they do not change them
+            k = r.choice([1, 2, 3])
+            self.add(("let", ("var", "N1"), n(k), False), ("let", ("var", "N2"), n(2), False), ("let", ("arr", "G", [n(1)]), n(3), False) if self.arr_names else ("let", ("var", "N3"), n(3), False),
+                     ("let", ("var", "V$"), ("fn", "STRING$", [("var", "N1"), ("str", "*")]), False),
+                     ("let", ("var", "V3"), ("fn", "INSTR", [("var", "N2"), ("bin", "+", W, ("str", "XAB")), ("str", "AB")]), False),
+                     ("let", ("var", "V4"), ("fn", "VAL", [W]), False))
+            self.add(P(self.tag(), ";", ("var", "V$"), ";", ("var", "N1"), ";", ("var", "N2"), ";", ("var", "V3"), ";", W, ";", ("var", "V4")))
+        if r.random() < 0.5:
             # two (three) numeric string functions in ONE statement: each needs a result of its own
             a, b = r.choice(["12", "2.5", "7"]), r.choice(["30", "0.25", "100"])
             self.add(("let", ("var", "V1"), ("bin", "+", ("fn", "VAL", [("str", a)]), ("fn", "VAL", [("str", b)])), False),
